@@ -1072,6 +1072,8 @@ class Interp:
             for a in node.args:
                 if isinstance(a, ast.Starred):
                     sv = self.eval(a.value, env)
+                    if isinstance(sv, ObjV) and hasattr(sv, 'unpack_items'):
+                        sv = TupleV(list(sv.unpack_items))      # *obj: the items its __iter__ yields (given by the contract object)
                     if not isinstance(sv, (TupleV, ListV)):
                         if self.loops.get('star_opaque') and isinstance(sv, ObjV) and len(node.args) == 1:
                             args.append(sv)        # f(*rows) with an opaque row collection: the callee's contract takes the collection
